@@ -10,8 +10,12 @@ TRUSTED_BASE = ["typing's Union normalisation / == / hash as modelled (Model/Typ
                 "store round trip and stub class generation are exercised on the real code and checked by the "
                 "Coq predicate td_boundedb; their models arrive with C08/C11"]
 ASSUMPTIONS = ["dict keys of a reified value are pairwise distinct (Python dict invariant)"]
-PARTIAL = ["td_survives_store / td_classes_bounded are checked on the implementation's output per case, not yet proved "
-           "about a model of the codec / stub generator"]
+PARTIAL = ["the bound on generated stub classes is proved by class identity (td_bounded_stub_classes) and by class NAME only "
+           "under a no-collision side condition (td_bounded_stub_classes_by_name); where two generated classes share a name "
+           "the rendered stub does exceed the limit: recorded finding kf_hint_collision",
+           "the property quantifies one limit per configuration; for a limit lowered between recording and stub generation "
+           "only the top-level merge is covered (td_merge_top_limit: the merge never builds a TypedDict larger than the limit "
+           "in force); TypedDicts nested in types that are merely equal pass through unchanged, by design of shrink_types"]
 
 HEADER = infer_cases.HEADER
 
@@ -161,14 +165,53 @@ def run(ctx):
             failures.append(rec)
         else:
             mismatches.append(rec)
+    # ---- the limit at merge time: types recorded under limit k1, merged under a smaller limit k2 ----
+    from monkeytype.typing import get_type, shrink_types
+    n2 = 300 if ctx.tier == "quick" else 4000
+    m2cases, m2terms = [], []
+    atoms = [1, "x", None, 2.5, [1], {"q": 1}]
+    for _ in range(n2):
+        k1 = rnd.choice([1, 2, 3, 10])
+        k2 = rnd.choice([x for x in (0, 1, 2, 3) if x < k1])
+        same = rnd.random() < 0.5           # every call saw the same dict shape, or overlapping shapes
+        base = rnd.sample(KEYS[:5], rnd.randrange(1, min(k1, 4) + 1))
+        vs = []
+        for _i in range(rnd.choice([1, 1, 2, 3])):
+            ks = base if same else rnd.sample(KEYS[:5], rnd.randrange(1, min(k1, 4) + 1))
+            fixed = rnd.choice(atoms)
+            vs.append({kk: (fixed if same else rnd.choice(atoms)) for kk in ks})
+        if rnd.random() < 0.2:
+            vs.append(rnd.choice([1, None, [], {1: 2}]))
+        try:
+            impl2 = common.reify_type(shrink_types([get_type(v, k1) for v in vs], k2), ct)
+            err = None
+        except Exception as e:
+            impl2, err = 'TFwd "?raised"%string', f"{type(e).__name__}: {e}"
+        m2cases.append({"k1": k1, "k2": k2, "values": repr(vs)[:300], "impl": impl2, "error": err})
+        m2terms.append(f"M2Case {k1} {k2} {common.coq_list(common.reify_value(v, ct) for v in vs)} ({impl2})")
+    header = HEADER % ct.hierarchy()
+    outs2 = common.run_coq_shards(ctx.work, "c06m", header, m2terms, "m2case", "bad verdict_c06_merge 0 cases")
+    for i, code in common.parse_bad(outs2):
+        c = m2cases[i]
+        rec = dict(c)
+        rec["term"] = m2terms[i]
+        if code == 2:
+            rec["what"] = (f"merging TypedDicts recorded under limit {c['k1']} with limit {c['k2']} in force built a TypedDict "
+                           f"with more than {c['k2']} fields: values={c['values']} -> {c['impl']}")
+            failures.append(rec)
+        else:
+            rec["what"] = f"model (shrink_top k2 . map (get_type k1)) and implementation differ (verdict {code})"
+            mismatches.append(rec)
+    dist["merge_under_lower_limit_cases"] = len(m2cases)
     distinct = len({common.digest(t) for t, c in zip(terms, cases) if "VDict" in c["term"]})
     d = infer_cases.distribution(cases)
     d.update(dist)
     return {
-        "evaluations": len(cases), "distinct_nontrivial": distinct,
+        "evaluations": len(cases) + len(m2cases), "distinct_nontrivial": distinct + len({common.digest(t) for t in m2terms}),
         "rule": "dicts of 0..12 keys (string/non-string/mixed) nested in every container kind, near-duplicates merged, "
                 "k in {0,1,2,3,10}, plus the C04 random stream; each case goes through get_type+shrink_types, the JSON "
-                "round trip and ReplaceTypedDictsWithStubs; non-trivial = contains a dict; distinct by hash of the reified case",
+                "round trip and ReplaceTypedDictsWithStubs; non-trivial = contains a dict; distinct by hash of the reified case; plus str-keyed dict collections typed under "
+                "limit k1 and merged under a lower limit k2 (theorem td_merge_top_limit)",
         "samples": [{"k": c["k"], "values": c["vs_repr"], "impl_type": c["impl"], "stub_counts": c["counts"]} for c in cases[:3]],
         "distribution": d, "failures": failures, "mismatches": mismatches, "relation": "corrb (infer k vs) impl",
     }
@@ -189,6 +232,8 @@ CLAIM = {'note': 'Trusted: Coq kernel + vm_compute; harness reifiers; typing sem
          'respects the limit; at k = 0 no stored row carries a TypedDict), td_bounded_rewrite(_chain) / '
          'no_td_rewrite(_chain), td_bounded_stub_classes (every generated class, a NonTotal class counted with its '
          'base, has between 1 and k fields; none at k = 0), td_bounded_stub_classes_by_name (the same read by class '
-         'NAME, under NoDup of the generated names), k_limit_end_to_end, k0_end_to_end. Tie: per case through '
+         'NAME, under NoDup of the generated names), k_limit_end_to_end, k0_end_to_end, td_merge_top_limit (the limit '
+         'in force at merge time bounds every TypedDict the merge builds, whatever limit the merged types were '
+         'recorded under). Tie: per case through '
          'get_type + merge, the JSON round trip and the real class stubs executed as Python defines them; verdicts '
          'in Coq.'}
